@@ -38,8 +38,22 @@ fn check_vehicle_load_assignment(context: &CheckerContext) -> GenericResult<()> 
                     },
                 )?;
 
+                // NOTE jobs served at the first stop of the interval (departure or reload location) change its load
+                let start_load = interval.first().map_or(Ok(start_delivery), |(_, (from, _))| {
+                    from.activities().iter().try_fold::<_, _, GenericResult<_>>(start_delivery, |acc, activity| {
+                        let activity_type = context.get_activity_type(tour, from, activity)?;
+                        let (demand_type, demand) = get_demand(context, activity, &activity_type)?;
+
+                        Ok(match demand_type {
+                            DemandType::StaticDelivery | DemandType::DynamicDelivery => acc - demand,
+                            DemandType::StaticPickup | DemandType::DynamicPickup => acc + demand,
+                            DemandType::None | DemandType::StaticPickupDelivery => acc,
+                        })
+                    })
+                })?;
+
                 let end_capacity =
-                    interval.iter().try_fold::<_, _, GenericResult<_>>(start_delivery, |acc, (idx, (from, to))| {
+                    interval.iter().try_fold::<_, _, GenericResult<_>>(start_load, |acc, (idx, (from, to))| {
                         let from_load = MultiDimLoad::new(from.load().clone());
                         let to_load = MultiDimLoad::new(to.load().clone());
 
